@@ -7,6 +7,6 @@ trap 'git -C /repo worktree remove --force "$wt" >/dev/null 2>&1; rm -rf "$wt"; 
 git -C /repo worktree add -q --detach "$wt" "${BASE:-HEAD}" || exit 9
 [ "$patch" = "/dev/null" ] || git -C "$wt" apply "$patch" || { echo "PATCH DOES NOT APPLY"; exit 9; }
 for id in "$@"; do
-  VERIF_REPO="$wt" /verif/check "$id" --tier "$tier" 2>&1 | tail -${TAIL:-6}
+  VERIF_REPO="$wt" ${CHECK:-/verif/check} "$id" --tier "$tier" 2>&1 | tail -${TAIL:-6}
   echo "== $id rc=${PIPESTATUS[0]}"
 done
